@@ -12,17 +12,30 @@ from harness import core, codec
 
 RULE = ("pairs of YAML documents (root mapping or sequence, one nested sequence) whose slots hold plain scalars, "
         "scalar anchor definitions and aliases from a pool of three anchor names (x, y, x_1 - so a renamed name can "
-        "collide) and values 1, 2, 1.0, true, 'a'; all valid 3-slot documents are enumerated and paired (complete in the "
+        "collide) and values 1, 2, 1.0, true, 'a', custom-tagged texts, values Python reads as false, and quoted texts that "
+        "spell another type's literal ('1', 'true', '1.0' next to 1, true, 1.0; !t 1.0 next to !t 1.00 - different values "
+        "although a type-coercing comparison would call them equal); all valid 3-slot documents are enumerated and paired (complete in the "
         "thorough tier, seeded sample in the quick tier) plus seeded larger documents; x 4 anchor policies x sampled "
         "array policies.  Per case: (1) the real Merger._resolve_anchor_conflicts on the loaded documents vs the Lean "
         "model `resolve` (documents compared with anchor names and object-identity classes); (2) directly on the real "
         "merge_with: stop refuses iff a conflict exists, left/right make every node of a conflicting name read the "
         "left/right value, rename keeps both under distinct names, the dump (tool's own editor) has no duplicate "
-        "anchor and strict-reloads to the merged data.  distinct_nontrivial = distinct (left, right, mode) with at "
+        "anchor and strict-reloads to the merged data.  The policy as the yaml-merge command receives it (--anchors, "
+        "[defaults] anchors of --config, both, none) for a sample of pairs; and SERIES of 3-4 documents condensed by one "
+        "yaml-merge run (multi-document left file, multi-document right file, one file of three documents, three files; "
+        "documents from the pools plus anchor-free ones): under stop the command must refuse iff at some step of the series "
+        "- first, middle or last - a same-name anchor differs from the one accumulated so far; otherwise its output is that of "
+        "the same series of merges through the API.  For 30 % of the random pairs either side is drawn from further shapes: slots "
+        "inside an ANCHORED Hash / Array (nested anchors), anchors defined ON keys and aliases used AS keys (`&x 1: 7`, `*x : 8`), "
+        "Hashes with a YAML merge key to an equal anchored Hash on both sides; anchored keys count as nodes of their name in "
+        "every clause.  distinct_nontrivial = distinct (left, right, mode) with at "
         "least one anchor name present in both documents.")
 
 NAMES = ["x", "y", "x_1"]
-VALUES = ["1", "2", "1.0", "true", "a", "!t a", "!u a", "!t b", "false", "''", "0.0"]   # incl. values Python reads as false
+VALUES = ["1", "2", "1.0", "true", "a", "!t a", "!u a", "!t b", "false", "''", "0.0",   # incl. values Python reads as false
+          # text that spells another type's literal: '1' / 1 / 1.0 / true, 'true' / true, '1.0' / 1.0 are DIFFERENT values
+          # (a string is not a number), as are two texts behind one custom tag
+          "'1'", "'true'", "'1.0'", "!t 1.0", "!t 1.00"]
 MODES = ["stop", "left", "right", "rename"]
 
 
@@ -96,7 +109,45 @@ def render_doc(shape, keys, slots):
         return "\n".join(lines) + "\n"
     if shape == "scalar":
         return r[0] + "\n"
+    if shape == "mapbox":       # slots inside an ANCHORED Hash (nested anchors); a third slot outside it
+        lines = ["box: &box%s" % keys[0], "  p: %s" % r[0], "  q: %s" % r[1]] + (["%s: %s" % (keys[2], r[2])] if len(r) > 2 else [])
+        return "\n".join(lines) + "\n"
+    if shape == "maplbox":      # slots inside an ANCHORED Array
+        lines = ["lst: &box%s [%s, %s]" % (keys[0], r[0], r[1])] + (["%s: %s" % (keys[2], r[2])] if len(r) > 2 else [])
+        return "\n".join(lines) + "\n"
+    if shape == "seqbox":
+        lines = ["- &box%s [%s, %s]" % (keys[0], r[0], r[1])] + (["- %s" % r[2]] if len(r) > 2 else [])
+        return "\n".join(lines) + "\n"
+    if shape == "mapkeydef":    # the first two slots are KEYS: `&x 1: 7` defines the anchor on a key, `*x : 8` uses it as a key
+        lines = []
+        for i, sl in enumerate(slots[:2]):
+            lines.append("m%d:" % i)
+            lines.append("  %s: %d" % (render_key_slot(sl), 7 + i))
+        if len(r) > 2:
+            lines.append("%s: %s" % (keys[2], r[2]))
+        return "\n".join(lines) + "\n"
+    if shape == "mapmk":        # Hashes that pull an anchored Hash in with a YAML merge key; both documents carry an EQUAL &base
+        lines = ["base: &base {p: 1, q: 2}", "u%s:" % keys[0], "  <<: *base", "  k: %s" % r[0]]
+        if len(r) > 2:
+            lines.append("  j: %s" % r[1])
+        lines.append("%s: %s" % (keys[2], r[-1]))
+        return "\n".join(lines) + "\n"
     raise ValueError(shape)
+
+
+KEYABLE = {"1", "2", "1.0", "true", "a", "false", "0.0"}
+
+
+def render_key_slot(s):
+    """A slot at a key position; values that do not make a plain key keep the slot as a value under a fixed key."""
+    kind, n, v = s
+    if kind == "plain":
+        return "p" + v
+    if kind == "alias":
+        return "*%s " % n
+    if v in KEYABLE:
+        return "&%s %s" % (n, v)
+    return "kv: %s\n  k%s" % (render_slot(s), n)
 
 
 def all_docs(nslots):
@@ -170,10 +221,18 @@ def canon_oids(pair):
     return [go(pair[0]), go(pair[1])]
 
 
+def kj(k):
+    """A key as comparable data (text / integer keys as they are; Boolean, float, tagged keys as their scalar JSON text)."""
+    try:
+        return codec.key_to_json(k)
+    except codec.OutOfModel:
+        return json.dumps(vj(k), sort_keys=True)
+
+
 def plain_json(node):
     """Data of a document for the reload comparison (tags kept as text, anchors dropped)."""
     if isinstance(node, dict):
-        return {"k": "map", "e": [[codec.key_to_json(k), plain_json(v)] for k, v in node.items()]}
+        return {"k": "map", "e": [[kj(k), plain_json(v)] for k, v in node.items()]}
     if isinstance(node, list):
         return {"k": "seq", "i": [plain_json(v) for v in node]}
     return vj(node)
@@ -184,7 +243,9 @@ def anchored_nodes(node, acc=None):
     if acc is None:
         acc = []
     if isinstance(node, dict):
-        for v in node.values():
+        for k, v in node.items():
+            if codec.anchor_of(k):      # an anchor defined on (or an alias used as) a key
+                acc.append((codec.anchor_of(k), k, id(k)))
             anchored_nodes(v, acc)
     elif isinstance(node, list):
         for v in node:
@@ -212,12 +273,14 @@ def run_case(case, log, drv_reqs, drv_ctx):
     from yamlpath.merger import Merger, MergerConfig
     from yamlpath.merger.exceptions import MergeException
     from yamlpath.common import Parsers
-    ltxt, rtxt, mode, arrays = case["l"], case["r"], case["mode"], case.get("arrays", "all")
+    ltxt, rtxt, mode, arrays = case.get("l"), case.get("r"), case["mode"], case.get("arrays", "all")
     rec = {"case": case, "viol": [], "skip": False}
     chain = case.get("r0")      # an earlier right-hand document merged first by the same Merger
     mergeat = case.get("mergeat")
     if chain is not None:
         return run_chain(case, log, rec)
+    if case.get("files"):
+        return run_cli_multi(case, log, rec)
     if case.get("via"):
         return run_cli(case, log, rec)
     # ---- (1) resolution step alone
@@ -357,6 +420,104 @@ def run_cli(case, log, rec):
     return rec
 
 
+def run_cli_multi(case, log, rec):
+    """Several documents condensed by one yaml-merge run (default multi-document mode): `files` is a list of files, each a
+    list of document texts (a multi-document left file, a multi-document right file, one file of three documents, three
+    files).  The command merges them in file order, document order, into the first.  Clauses judged on the command's own
+    outcome: under stop (given by --anchors, by the configuration file or by default) it refuses (non-zero exit status)
+    iff at SOME step a same-name anchor of the document merged in differs from the one accumulated so
+    far, wherever in the series that step is; otherwise its output is the document the same series of merges through the
+    API gives (whose single steps are judged by the clause checks of the other cases)."""
+    import os
+    from yamlpath.merger import Merger, MergerConfig
+    from yamlpath.merger.exceptions import MergeException
+    from yamlpath.common import Parsers
+    from harness.props import cli_common as cc
+    via, mode, files = case["via"], case["mode"], case["files"]
+    rec["cli"] = True
+    d = cc.tmpdir()
+    paths = []
+    for i, docs in enumerate(files):
+        p = os.path.join(d, "c10m-%d-%d.yaml" % (os.getpid(), i))
+        with open(p, "w") as fh:
+            fh.write("".join("---\n" + t for t in docs) if len(docs) > 1 else docs[0])
+        paths.append(p)
+    argv = ["--nostdin"]
+    if via == "config":
+        cf = os.path.join(d, "c10m-%d.ini" % os.getpid())
+        with open(cf, "w") as fh:
+            fh.write("[defaults]\nanchors = %s\n" % mode)
+        argv += ["--config", cf]
+    elif via == "cli":
+        argv += ["--anchors", mode]
+    if case.get("arrays"):
+        argv += ["--arrays", case["arrays"]]
+    argv += paths
+    # the series through the API, step by step
+    texts = [t for docs in files for t in docs]
+    acc = Merger(log, load(texts[0], log), MergerConfig(log, SimpleNamespace(anchors=mode, arrays=case.get("arrays", "all"))))
+    refusing_step, ncommon, nconf = None, 0, 0
+    for k, t in enumerate(texts[1:], 1):
+        doc = load(t, log)
+        lanch = {n: nd for n, nd, _i in anchored_nodes(acc.data)}
+        ranch = {n: nd for n, nd, _i in anchored_nodes(doc)}
+        common = [n for n in ranch if n in lanch]
+        conflicts = [n for n in common if not veq(lanch[n], ranch[n])]
+        ncommon += len(common)
+        nconf += len(conflicts)
+        if mode == "stop" and conflicts:
+            refusing_step = (k, conflicts)
+            break
+        try:
+            acc.merge_with(doc)
+        except Exception:  # noqa: a structural refusal or a crash of a single step is judged by the API cases
+            rec["skip"] = True
+            return rec
+    rec["common"], rec["conflicts"] = ncommon, nconf
+    rec["multi"] = "refusal-demanded-at-%s-step" % ("last" if refusing_step and refusing_step[0] == len(texts) - 1 else "an-earlier") \
+        if refusing_step else "accepted"
+    res = cc.run_inproc("merge", argv)
+    if res.get("timeout"):
+        rec["viol"].append(("timeout", "yaml-merge did not finish"))
+        return rec
+    if "crash" in res:
+        rec["viol"].append(("cli-" + res["crash"] + "@" + res.get("site", "?"), "yaml-merge %s let %s escape" % (argv[:-len(paths)], res["crash"])))
+        return rec
+    how = {"cli": "--anchors=%s" % mode, "config": "[defaults] anchors = %s in --config" % mode, "none": "no anchor policy given (stop)"}[via]
+    shape = "files of %s documents" % "+".join(str(len(x)) for x in files)
+    if refusing_step is not None:
+        if res["rc"] == 0:
+            rec["viol"].append(("multidoc:stop-accepts-conflict",
+                                "yaml-merge with %s condensing %s exits 0 and writes %r although document %d of the series defines %s "
+                                "with another value than the documents before it" % (how, shape, res["out"][:200],
+                                                                                      refusing_step[0] + 1, refusing_step[1])))
+        return rec
+    if res["rc"] != 0:
+        rec["viol"].append(("multidoc:refused-under-%s" % mode,
+                            "yaml-merge with %s condensing %s exits %d (%s); every step of the series is accepted by the policy" % (
+                                how, shape, res["rc"], res["err"].strip().split("\n")[-1][:120])))
+        return rec
+    try:
+        y = Parsers.get_yaml_editor()
+        acc.prepare_for_dump(y, "out.yaml")
+        buf = io.StringIO()
+        y.dump(acc.data, buf)
+    except Exception:  # noqa: judged by the API cases
+        return rec
+    got, ok = Parsers.get_yaml_data(Parsers.get_yaml_editor(), log, res["out"], literal=True)
+    exp, ok2 = Parsers.get_yaml_data(Parsers.get_yaml_editor(), log, buf.getvalue(), literal=True)
+    if not ok2:
+        return rec
+
+    def view(dt):
+        return [plain_json(dt), sorted((n, json.dumps(vj(nd), sort_keys=True)) for n, nd, _i in anchored_nodes(dt))]
+    if not ok or view(got) != view(exp):
+        rec["viol"].append(("multidoc:not-%s" % mode,
+                            "yaml-merge with %s condensing %s wrote %r; the series of merges under %s defines %r" % (
+                                how, shape, res["out"], mode, buf.getvalue())))
+    return rec
+
+
 def judge_merge(merger, rhs, rtxt, mode, rec):
     """The property's clauses for merging `rhs` into merger.data (as it stands now)."""
     from yamlpath.merger.exceptions import MergeException
@@ -475,9 +636,12 @@ def worker(cases):
             continue
         if rec.get("oom"):
             out["skip"] += 1     # counted as out of model; the direct clauses below were still judged
-        key = "%s|%s|%s|%s|%s" % (c["l"], c.get("r0"), c["r"], c["mode"], c.get("via"))
+        key = "%s|%s|%s|%s|%s|%s" % (c.get("l"), c.get("r0"), c.get("r"), c["mode"], c.get("via"), c.get("files"))
         if c.get("via"):
             out["hist"]["policy via " + c["via"]] = out["hist"].get("policy via " + c["via"], 0) + 1
+        if rec.get("multi"):
+            hk = "multidoc %s mode=%s: %s" % ("+".join(str(len(x)) for x in c["files"]), c["mode"], rec["multi"])
+            out["hist"][hk] = out["hist"].get(hk, 0) + 1
         if rec.get("common"):
             out["nontrivial"].add(hash(key))
         h = "mode=%s conflicts=%s" % (c["mode"], min(rec.get("conflicts", 0), 2))
@@ -531,6 +695,15 @@ def gen_cases(chk):
                 + [mk("scalar", rkeys, s) for s in docs1] * 20),
     }
     chk.extra_cov["document_pool"] = {k: [len(v[0]), len(v[1])] for k, v in pools.items()}
+    # nested anchors (slots inside an anchored Hash / Array), anchors defined on keys and aliases used as keys, Hashes with
+    # YAML merge keys to an (equal) anchored Hash: all 2-slot documents and a seeded sample of the 3-slot ones
+    some3 = rng.sample(docs3, min(len(docs3), 12000))
+    extra = {
+        "map": tuple([mk(sh, ks, sl) for sh in ("mapbox", "maplbox", "mapkeydef", "mapmk") for sl in docs2 + some3]
+                     for ks in (lkeys, rkeys)),
+        "seq": tuple([mk("seqbox", ks, sl) for sl in docs2 + some3] for ks in (lkeys, rkeys)),
+    }
+    chk.extra_cov["nested_key_mergekey_pool"] = {k: [len(v[0]), len(v[1])] for k, v in extra.items()}
     if chk.tier == "thorough":
         p2l = [mk("map", lkeys, s) for s in docs2]
         p2r = [mk("map", rkeys, s) for s in docs2]
@@ -555,7 +728,12 @@ def gen_cases(chk):
         cases.append({"l": "sub: {k0: 0}\n" + rng.choice(pl_map), "r0": rng.choice(pr_map), "r": rng.choice(pr_map),
                       "mode": rng.choice(MODES), "mergeat": "sub", "arrays": rng.choice(["all", "unique"])})
     for _ in range(n):
-        pl, pr = pools[rng.choice(["map", "map", "seq"])]
+        kind = rng.choice(["map", "map", "seq"])
+        pl, pr = pools[kind]
+        if rng.random() < 0.3:
+            pl = extra[kind][0]
+        if rng.random() < 0.3:
+            pr = extra[kind][1]
         cases.append({"l": rng.choice(pl), "r": rng.choice(pr), "mode": rng.choice(MODES),
                       "arrays": rng.choice(["all", "all", "unique", "left", "right"])})
     # the policy as the yaml-merge command receives it: command line, configuration file, both, none
@@ -573,6 +751,22 @@ def gen_cases(chk):
         if via == "both":
             c["cfgmode"] = rng.choice(MODES)
         cases.append(c)
+    # several documents condensed by ONE yaml-merge run: the refusal under stop wherever in the series the conflict is
+    plm, prm = pools["map"]
+    benign = ["z: 5\n", "c: 7\nz: [1]\n", "e: {q: 1}\n"]
+    for i in range(n // 18):
+        def pick(first=False):
+            if not first and rng.random() < 0.35:
+                return rng.choice(benign)
+            return rng.choice(plm if first else prm)
+        shape = rng.choice([(1, 2), (1, 3), (2, 1), (3, 1), (3,), (1, 1, 1), (2, 2), (1, 2, 1)])
+        files, first = [], True
+        for cnt in shape:
+            files.append([pick(first and j == 0) for j in range(cnt)])
+            first = False
+        via = rng.choice(["cli", "cli", "config", "none"])
+        m = "stop" if via == "none" else rng.choice(["stop", "stop", "left", "right", "rename"])
+        cases.append({"files": files, "mode": m, "via": via, "arrays": rng.choice(["all", "unique"])})
     return cases
 
 
